@@ -63,6 +63,20 @@ Theorem C19_helpers_of_spec : forall tbl m t p, In (t, p) (helpers_of tbl m) <->
 Proof. exact helpers_of_spec. Qed.
 Print Assumptions C19_helpers_of_spec.
 
+(* the visited set of the search must be keyed by the whole message address: keyed so, the keyed search is the model's ... *)
+Theorem C19_visible_by_address : forall sch tbl roots, visible_by (fun a => a) sch tbl roots = visible sch tbl roots.
+Proof. exact visible_by_address. Qed.
+Print Assumptions C19_visible_by_address.
+
+(* ... keyed by the short message name (Rack.Details and Tome.Details are both "Details") it loses a resource that
+   C19_visible_spec says the service sees *)
+Theorem C19_visible_by_short_name_refuted :
+  exists sch tbl roots h,
+    (exists t a m, In t roots /\ reach (vnext sch) t a /\ vfind sch a = Some m /\ In h (helpers_of tbl m)) /\
+    (forall hs, visible_by short_name sch tbl roots = Some hs -> ~ In h hs).
+Proof. exact visible_by_short_name_refuted. Qed.
+Print Assumptions C19_visible_by_short_name_refuted.
+
 Example C19_visible_example :
   let sch := [ mkV "GetReq" ["Wrapper"] ["x.com/Vault"] None;
                mkV "Wrapper" ["Book"; "Wrapper"] [] None;
